@@ -113,6 +113,18 @@ CLAIMED = {
         note=CONC_NOTE + "; 2-4 coroutines x 1-3 rounds, 1-3 workers; executor = harness pool", design="7/C14",
         technique="TLA+ spec + TLC model checking (safety, deadlock, liveness); schedule enumeration on the code with TLC "
                   "trace validation"),
+    "C15": dict(
+        text="CoSharedMutex.tla models yaclib::SharedMutex<FIFO,ReadersFIFO>: the packed state word (writers, readers) updated "
+             "outside the spinlock, the spinlock itself (exchange / spin / release store), readers queue or stack, writers "
+             "list, writers_first, writers_prio, readers_size, the readers_pass credit and the readers_wait debt with its "
+             "wrap-around, for LockShared / Lock / TryLockShared / TryLock / UnlockHereShared / UnlockHere with SlowUnlock, "
+             "RunWriter, RunReaders and PassReaders, workers as processes and coroutines as passive objects; TLC checks "
+             "exclusion (writer overlaps nobody, readers only readers), every request granted exactly once, deadlock "
+             "freedom, and that both counter domains are clean at the end (state, readers_wait, readers_pass, queues), "
+             "plus data-race freedom of the plain fields and of the protected cell; executions of real coroutines on a "
+             "harness pool are enumerated under the controlled scheduler and validated against the specification by TLC.",
+        note=CONC_NOTE + "; 2-4 coroutines x 1-3 rounds, 1-3 workers; spin loops scheduled fairly", design="7/C15",
+        technique="TLA+ spec + TLC model checking; schedule enumeration on the code with TLC trace validation"),
     "C16": dict(
         text="WaitGroup.tla models the count (AtomicCounter with the Set-on-zero deleter), the event's list head (TryAdd push "
              "vs the exchange of Set), the three kinds of registered jobs (stack Waiter, heap TimedWaiter with two owners, "
